@@ -248,8 +248,12 @@ pub fn step(ex: &mut Exec, st: &mut L1State, op: &str, toks: &[&str]) -> Option<
         let cached = toks.get(1) != Some(&"nocache");
         let mgr = match toks.get(1).cloned() {
             Some("nocache") => StorageManager::new_no_cache(db.clone()),
-            Some("tiny") => StorageManager::new(db.clone(), Some(Duration::from_millis(3)), Some(300), Some(Duration::from_millis(2))),
-            _ => StorageManager::new(db.clone(), Some(Duration::from_millis(3)), None, Some(Duration::from_millis(2))),
+            // timing margins: an item lives 60 ms and `st.sleep` sleeps 130 ms, so that a descheduled process does not make
+            // items expire where the model does not expect it (the model expires items at `st.sleep` only).  `tiny`: a
+            // 300-byte memory limit cleaned every 2 ms evicts at moments nobody can predict — its sequences carry no
+            // fault-injected READS (the only observations that depend on what is cached)
+            Some("tiny") => StorageManager::new(db.clone(), Some(Duration::from_millis(60)), Some(300), Some(Duration::from_millis(2))),
+            _ => StorageManager::new(db.clone(), Some(Duration::from_millis(60)), None, Some(Duration::from_millis(25))),
         };
         st.st = Some(StState { db, mgr, cached });
         st.st_log.clear();
@@ -392,8 +396,8 @@ pub fn step(ex: &mut Exec, st: &mut L1State, op: &str, toks: &[&str]) -> Option<
             "ok".into()
         }
         "st.sleep" => {
-            // every cached item (except the epoch slot) outlives its 3 ms lifetime
-            std::thread::sleep(Duration::from_millis(7));
+            // every cached item (except the epoch slot) outlives its 60 ms lifetime
+            std::thread::sleep(Duration::from_millis(130));
             "ok".into()
         }
         "st.userstate" if toks.len() == 4 => {
@@ -469,8 +473,8 @@ pub fn step(ex: &mut Exec, st: &mut L1State, op: &str, toks: &[&str]) -> Option<
             "ok".into()
         }
         "st.sleep" => {
-            // every cached item (except the epoch slot) outlives its 3 ms lifetime
-            std::thread::sleep(Duration::from_millis(7));
+            // every cached item (except the epoch slot) outlives its 60 ms lifetime
+            std::thread::sleep(Duration::from_millis(130));
             "ok".into()
         }
         "st.userstate" if toks.len() == 4 => {
